@@ -515,6 +515,11 @@ class AsyncHTTP2Connection(AsyncConnectionInterface):
         flow = min(local_flow, max_frame_size)
         while flow == 0:
             await self._receive_events(request)
+            # The server may have reset the stream while we are waiting for
+            # flow control credit. No credit will ever arrive for it.
+            for event in self._events.get(stream_id, []):
+                if isinstance(event, h2.events.StreamReset):
+                    raise RemoteProtocolError(event)
             local_flow = self._h2_state.local_flow_control_window(stream_id)
             max_frame_size = self._h2_state.max_outbound_frame_size
             flow = min(local_flow, max_frame_size)
